@@ -140,6 +140,38 @@ def native(scenario, shape, values=None, seed=None, profile='debug', timeout=60,
     return out
 
 
+def native_with_schedule(scenario, shape, values, preemptions, hold_s=0.4, timeout=20):
+    """run the debug replay binary under gdb (non-stop mode) and hold each preempted thread at the source line of
+    its preemption for `hold_s` seconds while the other threads run on. preemptions: [(thread, file:line, nth, to)]"""
+    exe = os.path.join(HARNESS, 'target', 'debug', 'replay')
+    script = os.path.join(ROOT, 'gdb_schedule.py')
+    env = dict(os.environ)
+    env['VERIF_GDB_PREEMPT'] = json.dumps([[t, pos, nth] for t, pos, nth, _ in preemptions])
+    env['VERIF_GDB_HOLD'] = str(hold_s)
+    cmd = ['gdb', '-q', '-batch', '-nx', '-x', script, '--args', exe, scenario, ','.join(str(x) for x in shape),
+           ','.join(str(x) for x in values) if values else '-']
+    try:
+        r = subprocess.run(cmd, stdout=subprocess.PIPE, stderr=subprocess.PIPE, text=True, timeout=timeout, env=env)
+    except subprocess.TimeoutExpired:
+        subprocess.run(['pkill', '-9', '-f', exe + ' ' + scenario], stdout=subprocess.DEVNULL, stderr=subprocess.DEVNULL)
+        return {'code': 'timeout', 'out': '', 'err': ''}
+    out = {'code': None, 'out': r.stdout, 'err': r.stderr[-2000:]}
+    for line in r.stdout.splitlines():
+        if line.startswith('CHECK-FAILED '):
+            out['failed'] = line.split(' ', 1)[1]
+        m = re.search(r'exited with code (\d+)', line)
+        if m:
+            out['code'] = int(m.group(1), 8) if m.group(1).startswith('0') and len(m.group(1)) > 1 else int(m.group(1))
+        if 'exited normally' in line:
+            out['code'] = 0
+        if line.startswith('GDB-HELD '):
+            out.setdefault('held', []).append(line[9:])
+    m = re.search(r"panicked at ([^\n]*)\n([^\n]*)", r.stdout + r.stderr)
+    if m:
+        out['panic'] = m.group(1) + ' ' + m.group(2)
+    return out
+
+
 # ----------------------------------------------------------------------------- symbolic workers
 _PROG = None
 _MODELS = None
@@ -215,6 +247,11 @@ def explore_all(pool, jobs, deadline, nproc):
                     res[jid]['budget_exhausted'] = True
                 break
             continue
+        if os.environ.get('VERIF_PROGRESS') and time.time() - _last_progress[0] > 60:
+            _last_progress[0] = time.time()
+            tp = sum(r0['paths'] for r0 in res)
+            active = sorted(set(pending.values()) | {j for j, _ in queue})
+            log('[progress] paths=%d shapes-active=%d/%d %s' % (tp, len(active), len(jobs), [tuple(jobs[j][1]) for j in active[:6]]))
         for f in done:
             jid = pending.pop(f)
             r = f.get()
@@ -267,6 +304,9 @@ def _stdx_status():
             return json.load(f)
     except (OSError, ValueError):
         return None
+
+
+_last_progress = [0.0]
 
 
 def scenario_path(s):
@@ -434,18 +474,26 @@ def run_check(prop, spec, tier, seed):
         if r['budget_exhausted']:
             inconclusive.append('%s %s: budget exhausted after %d paths' % (r['scenario'], r['shape'], r['paths']))
         seen_tags = set()
-        for tag, vals in r['cex']:
+        seen_tags = {}
+        for tag, vals, pre in r['cex']:
             if tag in seen_tags:
+                # keep a few different schedules of the same failing check for the native replay
+                if pre and len(seen_tags[tag][4]) < 6 and pre not in seen_tags[tag][4]:
+                    seen_tags[tag][4].append(pre)
                 continue
-            seen_tags.add(tag)
-            need_replay.append((r['scenario'], r['shape'], 'check:' + tag, vals))
-        seen_p = set()
-        for msg, vals in r['panics']:
+            seen_tags[tag] = (r['scenario'], r['shape'], 'check:' + tag, vals, [pre] if pre else [])
+            need_replay.append(seen_tags[tag])
+        seen_p = {}
+        for msg, vals, pre in r['panics']:
             key = msg[:60]
-            if key in seen_p or vals is None:
+            if vals is None:
                 continue
-            seen_p.add(key)
-            need_replay.append((r['scenario'], r['shape'], 'panic:' + msg, vals))
+            if key in seen_p:
+                if pre and len(seen_p[key][4]) < 6 and pre not in seen_p[key][4]:
+                    seen_p[key][4].append(pre)
+                continue
+            seen_p[key] = (r['scenario'], r['shape'], 'panic:' + msg, vals, [pre] if pre else [])
+            need_replay.append(seen_p[key])
     for sc in spec['scenarios']:
         missing = [w for w in sc.get('witnesses', []) if w not in covers.get(sc['name'], set())]
         if missing:
@@ -461,10 +509,14 @@ def run_check(prop, spec, tier, seed):
         if f.startswith(prop + '-'):
             os.remove(os.path.join(ROOT, 'evidence', 'replays', f))
     nrep = 0
-    for scn, shp, what, vals in need_replay:
+    for scn, shp, what, vals, schedules in need_replay:
         v = [x for _, x in vals]
         def confirms(n):
             if what.startswith('check:'):
+                if scn in threaded:
+                    # which check of the scenario fails first depends on the schedule: any failing check of this
+                    # property in a native run of the same scenario and shape confirms the violation
+                    return n['code'] == 3 and bool(n.get('failed'))
                 return n['code'] == 3 and n.get('failed') == what[6:]
             if what.startswith('panic:DEADLOCK'):
                 return n['code'] == 'timeout'
@@ -472,8 +524,18 @@ def run_check(prop, spec, tier, seed):
         tmo = 8 if scn in threaded else 60
         nd = native(scn, shp, v, profile='debug', timeout=tmo)
         nr = native(scn, shp, v, profile='release', timeout=tmo)
+        sched_used = None
         if scn in threaded and not (confirms(nd) or confirms(nr)):
-            # schedule-dependent: stress replay with delay injection at the library's sync points
+            # schedule-dependent, step 1: impose the schedule found symbolically on the native debug binary
+            # (gdb in non-stop mode holds the preempted thread at the source line of the preemption while the others run)
+            for pre in schedules:
+                n = native_with_schedule(scn, shp, v, pre)
+                if confirms(n):
+                    nd = n
+                    sched_used = pre
+                    break
+        if scn in threaded and not (confirms(nd) or confirms(nr)):
+            # step 2: stress replay with delay injection at the library's sync points
             # (random delays there and random start offsets of the racing threads), 16 replays at a time
             from concurrent.futures import ThreadPoolExecutor
             t_st = time.time()
@@ -493,7 +555,7 @@ def run_check(prop, spec, tier, seed):
                                 nr = n
                     attempt += 16
         cd, cr = confirms(nd), confirms(nr)
-        rec = {'property': prop, 'scenario': scn, 'shape': shp, 'what': what, 'values': vals, 'native_debug': {'code': nd['code'], 'failed': nd.get('failed'), 'panic': nd.get('panic')},
+        rec = {'property': prop, 'scenario': scn, 'shape': shp, 'what': what, 'values': vals, 'schedule_imposed_with_gdb': sched_used, 'native_debug': {'code': nd['code'], 'failed': nd.get('failed'), 'panic': nd.get('panic')},
                'native_release': {'code': nr['code'], 'failed': nr.get('failed'), 'panic': nr.get('panic')},
                'replay_cmd': '%s %s %s %s' % (os.path.join(HARNESS, 'target/release/replay'), scn, ','.join(map(str, shp)), ','.join(map(str, v)))}
         if not (cd or cr):
